@@ -152,7 +152,7 @@ def jobs(tier):
             for first, tag in enumerate(('none', 'loose', 'strict', 'loose_unsatisfiable', 'strict_unsatisfiable')):
                 js.append(dict(name=f'H16c:route_independence:{sh}:second={ends[0]}->{ends[1]}:first_include={tag}', fn='h_route_independence',
                                params=dict(shape=sh, ends=ends, first=first), cost=100, witness_every=10,
-                               budget_s=170 if tier == 'quick' else 600, opts=dict(no_ties=True)))
+                               budget_s=170 if tier == 'quick' else 300, opts=dict(no_ties=True)))
     return js
 
 
